@@ -6,7 +6,10 @@ order permutations / case foldings of it (which the spec proves decision-preserv
 import json
 import random
 
+import os
+
 from vlib import build, rig, tlc as tlcmod, util
+from vlib.ctx import validate_trace
 
 ASSUME = [
     "TLC 1.8 + CommunityModules",
@@ -155,6 +158,7 @@ def run(c):
                     "spec=%s impl=%s doc=%s" % (kd, len(lst), name, cmd["url"], k["caller"]["user"], k["allow"],
                                                  r["allowed"], json.dumps(cmd["doc"])[:600]),
                     {"kind": kd}, {"cmd": cmd, "spec_allow": k["allow"], "impl": r, "count": len(lst)})
+    listener_slice(c, rnd, thorough)
     c.exhaustive = True
     c.rule = ("cases = every (document, caller, URL) of three complete small universes enumerated by TLC; each evaluated "
               "on the real deserialize+compute+is_allowed path in its base form, under list permutations and under "
@@ -162,8 +166,85 @@ def run(c):
               "matched or the mode is disabled")
 
 
+def listener_slice(c, rnd, thorough):
+    """'...or on anything else': the same decision function observed at the real listener, on keep-alive connections that
+    mix granted and denied URLs of one path in every order, across a change of the rule document; TLC computes each
+    expected decision from (document in force, caller, URL) alone (spec/trace/RbacTrace.tla)."""
+    from checks import proxylib
+    name = "c02_listener"
+    exe = os.path.join(util.RUNDIR, name, "verif-agent")
+    caller = proxylib.caller_of(0, exe, exe)
+
+    def doc(n, flip):
+        me, them = ("someone-else", caller["user"]) if flip else (caller["user"], "someone-else")
+        return {"defaultAccess": "deny", "mode": "enforce", "id": "doc%d" % n, "rules": {
+            "privileges": [{"name": "pg", "path": "/machine", "queryParameters": {"comp": "goalstate"}},
+                           {"name": "ps", "path": "/machine", "queryParameters": {"comp": "secrets"}},
+                           {"name": "pm", "path": "/metadata"}],
+            "roles": [{"name": "rg", "privileges": ["pg", "pm"]}, {"name": "rs", "privileges": ["ps"]}],
+            "identities": [{"name": "me", "userName": me}, {"name": "them", "userName": them}],
+            "roleAssignments": [{"role": "rg", "identities": ["me"]}, {"role": "rs", "identities": ["them"]}]}}
+    urls = ["/machine?comp=goalstate", "/machine?comp=secrets", "/machine?comp=other", "/machine", "/MACHINE?COMP=GOALSTATE",
+            "/machine?x=1&comp=secrets", "/machine/plugins?comp=goalstate&y=2", "/metadata/instance", "/metadata/instance?comp=secrets",
+            "/other?comp=goalstate"]
+    steps, meta = [], {}
+    cur = doc(0, False)
+    steps.append({"op": "set_rules", "ep": "imds", "doc": cur})
+    nconn = 30 if not thorough else 300
+    k = 0
+    for ci in range(nconn):
+        cn = "e%d" % ci
+        steps.append({"op": "connect", "conn": cn, "attr": {"uid": 0, "admin": 1, "dip": "169.254.169.254", "dport": 80}})
+        for j in range(rnd.randint(3, 8)):
+            if rnd.random() < 0.12:
+                cur = doc(k + 1, rnd.random() < 0.5)       # the host delivers another document while the connection is open
+                steps.append({"op": "set_rules", "ep": "imds", "doc": cur})
+            k += 1
+            rid = "d%d" % k
+            u = rnd.choice(urls[:3]) if rnd.random() < 0.5 else rnd.choice(urls)
+            steps.append({"op": "request", "conn": cn, "id": rid, "method": "GET", "target": u, "headers": [["Host", "h"]]})
+            meta[rid] = (cur, u)
+        steps.append({"op": "close", "conn": cn})
+    ev, d, _ = rig.run_rig({"steps": steps, "drain_ms": 200}, name, timeout=600)
+    resp = {e["id"]: e for e in ev if e["e"] == "Response"}
+    host = {e["id"] for e in ev if e["e"] == "HostRecv" and e.get("id")}
+    rows, und = [], 0
+    for rid, (dj, u) in meta.items():
+        r = resp.get(rid)
+        if r is None:
+            raise util.ToolError("listener slice: request %s (%s) got no response" % (rid, u))
+        if r["status"] == 403 and rid not in host:
+            allowed = False
+        elif rid in host:
+            allowed = True
+        else:
+            und += 1
+            continue
+        rows.append({"e": "dec", "id": rid, "doc": proxylib.doc_to_tla(dj), "url": proxylib.url_to_tla(u), "allowed": allowed,
+                     "caller": {kk_: caller[kk_] for kk_ in ("user", "groups", "proc", "exe")}})
+    if len(rows) < len(meta) * 0.9 or not any(r["allowed"] for r in rows) or all(r["allowed"] for r in rows):
+        raise util.ToolError("listener slice is vacuous: %d of %d requests decided, %d allowed" % (
+            len(rows), len(meta), sum(r["allowed"] for r in rows)))
+    c.extra["listener_decisions"] = len(rows)
+    c.extra["listener_connections"] = nconn
+    c.traces_validated += nconn
+    ok, why, res = validate_trace(c, "RbacTrace", "RbacTrace.cfg", rows, "c02_listener", count=0, timeout=600)
+    if not ok:
+        import re
+        ids = re.findall(r'id \|-> "(d\d+)"', res.trace_text or "")
+        bad = next((r for r in rows if ids and r["id"] == ids[-1]), rows[0])
+        dj, u = meta[bad["id"]]
+        before = [meta[x][1] for x in meta if x in resp and resp[x]["conn"] == resp[bad["id"]]["conn"] and int(x[1:]) < int(bad["id"][1:])]
+        c.violation("the decision at the listener is not the declared function of (rules, caller, URL): %s was %s under "
+                    "document %s; earlier on the same connection: %s" % (u, "allowed" if bad["allowed"] else "denied", dj["id"], before[-6:]),
+                    {"kind": "listener-decision-depends-on-history"}, {"url": u, "doc": dj, "earlier_on_connection": before, "allowed": bad["allowed"]})
+
+
 def replay(c, path):
     r = util.read_json(path)
+    if "cmd" not in r.get("case", {}):
+        # a listener-slice artefact: the scenario is regenerated from the seed
+        return run(c)
     cmd = r["case"]["cmd"]
     out = rig.fn_table([cmd], "c02r")[0]
     c.count(json.dumps(cmd))
